@@ -76,11 +76,11 @@ Definition wakeinv (s : st) : Prop :=
   0 < waiting s -> 0 < size s \/ tok s = true \/ 0 < cnt is_lefttok (prods s).
 
 Lemma wakeinv_step c s l s' z :
-  corrupt s = [] -> tokinv s -> sizeinv c s -> fitinv c s -> wakeinv s ->
+  corrupt s = [] -> faulty s = [] -> tokinv s -> sizeinv c s -> fitinv c s -> wakeinv s ->
   wf_label c l -> fit_label c l ->
   step c s l = Some (s', z) -> wakeinv s'.
 Proof.
-  intros NF (T1 & _ & T3 & _) (B1 & _ & _ & _ & B5 & B6) F N W1 W2 H.
+  intros NF NF2 (T1 & _ & T3 & _) (B1 & _ & _ & _ & B5 & B6) F N W1 W2 H.
   revert T1 T3 B1 B5 B6 F N W1 W2. unfold wakeinv, fitinv, wf_label, fit_label.
   pose proof (cnt_nonneg is_lefttok (prods s)) as N1. revert N1. revert H.
   step_cases; intros N1 T1 T3 B1 B5 B6 F N W1 W2;
@@ -110,6 +110,7 @@ Proof.
     + intros H. simpl in H. lia.
   - intros s0 l s1 z R0 ((I1 & I2 & I3 & I4) & I5 & I6 & I7) [W1 W2] Hs.
     pose proof (reach_nofault _ c s0 (fun l H => proj1 H) R0) as NF.
+    pose proof (reach_nofault2 _ c s0 (fun l H => proj1 H) R0) as NF2.
     split; [|split; [|split]].
     + split; [|split; [|split]].
       * eapply tokinv_step; eauto.
@@ -153,7 +154,8 @@ Proof.
   - destruct (inflight s) as [|[id sz] r] eqn:E; [reflexivity|].
     specialize (Q (LDone id 0) eq_refl). unfold step, lock_free, done in Q. rewrite L, E in Q.
     simpl in Q. rewrite Nat.eqb_refl in Q. discriminate.
-  - intros p sz H. specialize (Q (LRelockTok p) eq_refl). unfold step, lock_free in Q. rewrite L, H in Q. discriminate.
+  - intros p sz H. specialize (Q (LRelockTok p) eq_refl). unfold step, lock_free in Q. rewrite L, H in Q.
+    destruct (find_id p (faulty s)); [destruct (size s + sz >? cap c)|]; discriminate.
   - intros p sz H. specialize (Q (LRelockCtx p) eq_refl). unfold step, lock_free in Q. rewrite L, H in Q.
     destruct (waiting s =? 0), (tok s); discriminate.
   - intros p sz H. split.
